@@ -79,10 +79,47 @@ def finish(c, g):
                 c.op(k, vfx.ps(t, n))
 
 
+def special_file_cases():
+    """directory entries that are neither regular files nor directories - a Unix socket, a character device reached
+    through a symlink - found on disk by a PhysicalFS, directly, below an altroot and in either layer of an overlay:
+    every call on them, listings, walks and whole-directory operations around them"""
+    import random
+    rng = random.Random(83)
+    cases = []
+    for kind, tmp, sub in (("phys", 0, ""), ("alt_phys", 0, None), ("ovl_pp", 0, ""), ("ovl_pp", 1, "")):
+        c = vfx.Case("c13_special_%s_%d" % (kind, tmp))
+        g = hist.build_config(c, kind, rng)
+        c.cfg = g
+        t = g.target
+        pre = (g.alt_under[1][1:] + "/") if g.alt_under and g.alt_under[1] else ""
+        c.op("createdirall", vfx.ps(t, "d"))
+        hist.write_file(c, t, "d/f", b"plain")
+        c.op("xsocket", tmp, vfx.hexs(pre + "sock"))
+        c.op("xsocket", tmp, vfx.hexs(pre + "d/sock"))
+        c.op("xsymlink", tmp, vfx.hexs(pre + "null"), vfx.hexs("/dev/null"))
+        for n in ("sock", "d/sock", "null", "sock/below", "null/below"):
+            for k in ("exists", "metadata", "isfile", "isdir", "probe", "readdir", "readtostring", "createdir", "createdirall", "walkdir"):
+                c.op(k, vfx.ps(t, n))
+            h = c.op("openfile", vfx.ps(t, n)); c.op("hread", h, 4); c.op("hdrop", h)
+            c.op("setmtime", vfx.ps(t, n), 12345)
+            c.op("copyfile", vfx.ps(t, n), vfx.ps(t, "copy_of"))
+        for k in ("readdir", "walkdir", "probe"):
+            c.op(k, "%d:" % t)
+            c.op(k, vfx.ps(t, "d"))
+        c.op("copydir", vfx.ps(t, "d"), vfx.ps(t, "d2"))
+        c.op("movedir", vfx.ps(t, "d"), vfx.ps(t, "d3"))
+        c.op("removefile", vfx.ps(t, "sock"))
+        c.op("removedir", vfx.ps(t, "null"))
+        c.op("removedirall", vfx.ps(t, "d3"))
+        c.op("removedirall", vfx.ps(t, "d"))
+        cases.append(c)
+    return cases
+
+
 def corpus_cases():
     """every operation on every kind of target (wrong types, the root, below files) and handles that outlive their file"""
     kinds = ["mem", "phys", "alt_mem", "ovl_mm", "ovl_pp", "ovl_sub"]
-    return hist.matrix_cases("c13", kinds, root_removal=True) + hist.stale_handle_cases("c13", kinds)
+    return hist.matrix_cases("c13", kinds, root_removal=True) + hist.stale_handle_cases("c13", kinds) + special_file_cases()
 
 
 P = histprop.HistProp(
@@ -92,7 +129,7 @@ P = histprop.HistProp(
           "('', '/', '.', '..', 'a/', '//', '...', multi-byte, 300 characters), by reads/seeks/writes on handles whose file "
           "and directory were removed (offsets 0, +-1, len, len+1, i64::MIN/MAX, 2^40, zero-length buffers), and on "
           "PhysicalFS by listings and calls over a non-UTF-8 file name, a dangling symlink and a symlink loop created behind "
-          "the crate's back, and by walks whose entries are removed while the walk is under way; every call runs under catch_unwind in a debug and in a release build; a case counts as "
+          "the crate's back, by every call on and around a Unix socket and a character device (through a symlink) found in a served directory, and by walks whose entries are removed while the walk is under way; every call runs under catch_unwind in a debug and in a release build; a case counts as "
           "non-trivial when it has at least 3 successful and 1 failing call"),
     assumptions=["copy_dir/move_dir into the source's own subtree is excluded (documented non-termination)",
                  "writes at positions beyond 100 kB are excluded (allocation failure aborts, it does not panic)",
